@@ -82,6 +82,11 @@ TRUSTED = [
     "Lean's Float.log/sqrt/pow (C library) vs numpy's log/sqrt/power and np.var's pairwise summation vs the model's sequential sum: "
     "compared at 1e-9; the theorems about sig2_b, G1..G12, Dt_b are over the reals (Real.log, Real.sqrt, Real.rpow) and say "
     "nothing about rounding",
+    "Python's format(x, '.pf') prints the correctly rounded (ties-to-even) decimal of the exact value of the double: modelled over Rat by "
+    "Binify.fmtFixed and compared as strings on every run; pandas DataFrame construction (index/columns/names) is compared, not modelled",
+    "np.argsort inside locate.find_duplicates: any order among equal values (the model uses a merge sort)",
+    "corpus/c10_candidate_fix_check.py (ties the repair-candidate models FindapFix / FdePsdFix to the patched text in a scratch worktree; "
+    "not part of ./check)",
 ]
 RULE = (
     "findap: all signals over {0..3} of length 1..6 (7 thorough) x 5 tolerances plus seeded dyadic signals "
@@ -93,7 +98,11 @@ RULE = (
     "{1,2,3,4,5,8,12} x dyadic step x data = both ends + points on interior edges and bin centres | constant data | one sample | two "
     "samples x right; fdepsd: option grid resp x nbins x T0 x rolloff x hpfilter x winends on seeded random signals, one case = one "
     "frequency row; worker stream: the same grid (other salt) plus dyadic signals through an identity SDOF filter (cycles exactly "
-    "on bin levels, constant-amplitude tables, nbins in {1,2,4,8,16}, both resp); distinct by the canonical input"
+    "on bin levels, constant-amplitude tables, nbins in {1,2,4,8,16}, both resp); packaging: dyadic cycle tables x explicit bins (values on "
+    "the first / last edge, outside, narrow bins whose labels collide) or integer counts on either axis x right x check_bounds x "
+    "precision in {0,1,2,3,5} x retbins x use_pandas, plus sigcount on seeded signals - table, label strings, axis names, edges; "
+    "locate: dyadic vectors with plateaus and steps exactly equal to stol x tol in {0,1e-6,1/4,1/2,1,-1/4,1/maxstep}; find_duplicates "
+    "tol in {0,1/4,1/2,1,-1}; distinct by the canonical input"
 )
 ASSUMPTIONS = [
     "float arithmetic on the generated dyadic inputs is exact; (signal, tol) pairs whose float stol would decide a "
@@ -102,31 +111,40 @@ ASSUMPTIONS = [
     "stream (the Float worker stream needs no such skip: it performs the same IEEE operations)",
     "scalar `bins` >= 1; an explicit `bins` vector of length 1 is a scalar by the code's own rule",
     "fdepsd formulas: f*T0 > 1 for resp='absacce' (ln N0 > 0 and Dt_b > 0: proved test_damage_positive), f*T0 > 0 and != 1 for 'pvelo'; "
-    "Q > 0, f > 0; scaling factor c > 0",
+    "Q > 0, f > 0; scaling factor c != 0",
+    "labels of COMPUTED (integer-count) edges are compared only when no rounding boundary of the precision-digit format lies within 1e-6 "
+    "(relative to the last printed place) of the edge; otherwise skipped and counted; explicit dyadic edges are always compared",
 ]
 PARTIAL = (
-    "default findap: alternation/extremes proved only under NoSubTolDrift (finding F4; necessity proved by "
-    "default_drift_counterexample); numba variant: first sample and alternation proved in full, extremes proved within "
-    "2*stol — within stol is false (seq_end_rule_counterexample, finding F22) and no stol-strength partial theorem is "
-    "proved; the variant can fail outright (seq_unbound_counterexample, F14); 'both variants select the same set' is not "
-    "proved: false even without drift (variants_differ_counterexample, F23), the agreement hypothesis (no drift and no "
-    "return within stol of a run head) is used by the oracle's classification only; auto_bins_cover / binify_auto_conserves are "
-    "proved over exact arithmetic: in doubles the end-point nudge 0.001*(mx-mn) can be absorbed by rounding (new finding "
-    "getbins-auto-nudge-absorbed-by-rounding, relative data spread below ~1e-13), outside that family the float edges are tied by "
-    "the exact autobins stream; test_variance_reproduces is proved for resp='absacce' and for the Dt_b the code solves with; for "
-    "resp='pvelo' the RETURNED di_test satisfies the relation only up to the factor 2**(b/2) (test_variance_pvelo_factor, "
-    "test_variance_pvelo_counterexample; finding F25 stays open); psd_quadratic_scaling is proved from the filtered response on "
-    "(psd_quadratic_scaling_signal: findap + rainflow + all bookkeeping) for c > 0 — the linearity of lfilter/detrend/windowends/"
-    "butter/resample in front of it is sampled by the oracle's x4 run only, c < 0 is not treated; G2_ge_G1_loop assumes every "
-    "examined level's count is below the total (equality makes the code divide by zero: G2 = inf in doubles, still >= G1)"
+    "UNPATCHED code (what /repo runs): default findap: alternation/extremes proved only under NoSubTolDrift (finding F4; necessity proved "
+    "by default_drift_counterexample); numba variant: first sample and alternation proved in full, extremes proved within 2*stol - within "
+    "stol is false (seq_end_rule_counterexample, F22); the variant can fail outright (seq_unbound_counterexample, F14); 'both variants "
+    "select the same set' is false even without drift (variants_differ_counterexample, F23).  For the PATCHED functions of "
+    "corpus/c10_F4/F14_F22/F23_candidate_fix.diff all of this is proved for every signal and tolerance (findap_fixed_*), but those "
+    "theorems are about repair candidates, not about /repo; F4 F14 F22 F23 F25 stay open until a patch is applied.  F23 cannot be "
+    "repaired without changing what one variant returns on the 'return' family (stated in the diff).  fdepsd: test_variance_reproduces "
+    "holds for resp='absacce'; for 'pvelo' only up to 2**(b/2) (test_variance_pvelo_factor, F25); test_variance_reproduces_fixed is "
+    "about the patched tail.  auto_bins_cover / binify_auto_conserves / labels_distinct_of_gap are over exact arithmetic (doubles: "
+    "finding F41, fixed; labels of computed edges within 1e-6 of a rounding boundary are skipped and counted).  binify: the total of the "
+    "table and the cell of every cycle are proved (binify_places, binify_drops_uncovered, binify_conserves_2d, "
+    "binify_explicit_bins_spec); the cell-by-cell sum formula is not stated as a theorem.  find_duplicates: code model and documented "
+    "meaning are both in Lean and compared on every run; their equivalence is not proved.  psd_quadratic_scaling_full covers c of either "
+    "sign from the filtered response on; that detrend/windowends/butter/lfilter/resample are homogeneous is the specification "
+    "IsLinear (psd_quadratic_scaling_input), sampled by the oracle's x4 and x(-4) runs, not proved.  G2_ge_G1_loop assumes every "
+    "examined level's count is below the total (equality: division by zero, G2 = inf in doubles, still >= G1).  String rendering of "
+    "labels (digits, sign of a negative value rounding to zero) is executable model + exact stream, theorems are about the label NUMBER."
 )
 MANIFEST = {
-    "level_text": "proof (partial for default findap: known finding F4; fdepsd test-variance relation for pvelo: known finding F25)",
-    "level_note": "selection and binning are modelled exactly over Rat (auto bins: construction, strict monotonicity and coverage "
-                  "proved); everything fdepsd computes per frequency after lfilter is one polymorphic Lean definition, proved about "
-                  "over the reals (amax_le_srs, bincount_spec, damage_def, damage_per_cycle, test_variance_*, G_b_monotone_in_damage, "
-                  "G2_ge_G1_loop, psd_quadratic_scaling*) and run at Float against every returned table; only tied/measured: "
-                  "lfilter and the signal pre-processing, libm rounding of log/sqrt/pow",
+    "level_text": "proof (partial for default findap: known finding F4; numba variant F14/F22/F23; fdepsd test-variance relation for pvelo: "
+                  "known finding F25) + proved repair candidates for all five open findings (theorems about the patched functions)",
+    "level_note": "selection, binning (explicit and automatic bins, both `right` conventions, 2-D counts, what is dropped), labels/packaging, "
+                  "sigcount as a composition and locate.find_unique are modelled exactly over Rat and proved about; everything fdepsd "
+                  "computes per frequency after lfilter is one polymorphic Lean definition, proved about over the reals (amax_le_srs, "
+                  "bincount_spec, count_is_upper_cumulative, damage_def, psd_G_formulas, test_variance_*, G2_ge_G1_loop, "
+                  "psd_quadratic_scaling_full for c of either sign) and run at Float against every returned table; only tied/measured: "
+                  "lfilter and the signal pre-processing (specification IsLinear), libm rounding of log/sqrt/pow, decimal string "
+                  "rendering of labels, find_duplicates' equivalence with its documented meaning; the repair candidates are tied to the "
+                  "patched text by corpus/c10_candidate_fix_check.py in a scratch worktree, never by the check itself",
     "technique": "Lean 4 theorems about executable models + exact correspondence + Float run of the same definitions (numeric 1e-9) "
                  "+ ast transcription of the numba variant",
 }
@@ -1210,12 +1228,12 @@ def _corr_packaging(ctx, drv):
                 ok, what = False, "number of labels"
             elif not (exact_edges or (_label_safe(iab, mab, p) and _label_safe(imb, mmb, p))):
                 ctx.skip("binify-full: a label rounding boundary lies within rounding of a computed edge")
-            elif gi != mi or gc != mc:
-                ok, what = False, "labels"
             else:
                 ctx.count("pack:labels-compared")
-                if len(set(gc)) < len(gc) or len(set(gi)) < len(gi):
+                if len(set(mc)) < len(mc) or len(set(mi)) < len(mi):
                     ctx.count("pack:label-collision")
+                if gi != mi or gc != mc:
+                    ok, what = False, "labels"
         if ok and not pandas_ and (idx != "-" or cols != "-" or names != "-"):
             ok, what = False, "use_pandas=False but the model returns labels"
         if not ok:
